@@ -16,11 +16,13 @@ func CompileToGetCodeSet(ctx *RuntimeContext, typeptr uintptr) (*OpcodeSet, erro
 		if err != nil {
 			return nil, err
 		}
+		verifCodeSet(typeptr, codeSet, -1)
 		return getFilteredCodeSetIfNeeded(ctx, codeSet)
 	}
 	index := (typeptr - typeAddr.BaseTypeAddr) >> typeAddr.AddrShift
 	setsMu.RLock()
 	if codeSet := cachedOpcodeSets[index]; codeSet != nil {
+		verifCodeSet(typeptr, codeSet, int(index))
 		filtered, err := getFilteredCodeSetIfNeeded(ctx, codeSet)
 		if err != nil {
 			setsMu.RUnlock()
@@ -35,6 +37,8 @@ func CompileToGetCodeSet(ctx *RuntimeContext, typeptr uintptr) (*OpcodeSet, erro
 	if err != nil {
 		return nil, err
 	}
+	verifCodeSet(typeptr, codeSet, int(index))
+	verifYield("enc-cache:compiled")
 	filtered, err := getFilteredCodeSetIfNeeded(ctx, codeSet)
 	if err != nil {
 		return nil, err
